@@ -64,7 +64,10 @@ func GetAggregatorContext(ctx sdk.Context, k Keeper) *aggregator.AggregatorConte
 
 func recacheAggregatorContext(ctx sdk.Context, agc *aggregator.AggregatorContext, k Keeper, c *cache.Cache) bool {
 	logger := k.Logger(ctx)
-	from := ctx.BlockHeight() - int64(common.MaxNonce) + 1
+	// the window length must come from the stored params: right after a restart the package
+	// level common.MaxNonce still holds its compiled-in default, and with a larger configured
+	// MaxNonce the first block(s) of an open window would not be replayed.
+	from := ctx.BlockHeight() - int64(k.GetParams(ctx).MaxNonce) + 1
 	to := ctx.BlockHeight()
 
 	h, ok := k.GetValidatorUpdateBlock(ctx)
